@@ -298,7 +298,12 @@ func c19Gen(r *rand.Rand, emit vutil.Emit) {
 			hosts = append(hosts, g...)
 		}
 		for i, n := 0, 2+r.IntN(4); i < n; i++ {
-			hosts = append(hosts, vutil.Pick(r, u.names))
+			h := vutil.Pick(r, u.names)
+			// shorten some: the universe is dominated by its deepest names
+			for k := r.IntN(4); k > 0 && strings.Count(h, ".") > 1; k-- {
+				h = h[strings.IndexByte(h, '.')+1:]
+			}
+			hosts = append(hosts, h)
 		}
 		// children / deeper names / case and dot variants of the working set
 		for i, n := 0, 2+r.IntN(4); i < n; i++ {
@@ -372,6 +377,10 @@ func c19Gen(r *rand.Rand, emit vutil.Emit) {
 				continue
 			}
 			host := vutil.Pick(r, hosts)
+			if r.IntN(2) == 0 {
+				// a few hot names, so that answers come from the cache
+				host = hosts[r.IntN(min(3, len(hosts)))]
+			}
 			ps, icann := publicsuffix.PublicSuffix(host)
 			subs := c19Subs(host)
 			f = []string{"C19.check", vutil.Hex(host), vutil.Hex(ps), vutil.B(icann), vutil.Itoa(len(subs))}
